@@ -88,6 +88,11 @@ func m1C05URL(r *rng, sc *c01Scenario, f *rules.NetworkRule) string {
 	default:
 		u = urlAround(r, t)
 	}
+	if r.chance(1, 8) || (f.IsOptionEnabled(rules.OptionMatchCase) && r.chance(1, 3)) {
+		// URL LENGTH (log-scale filler after the host, from a few bytes to beyond the 4 KiB cap): the shortcut and the
+		// letters whose case is arranged below lie 64, 300, 1500, 4000 bytes into the URL
+		u = nLongURL(r, u, nPadLog(r, 8, 5000))
+	}
 	if f.Shortcut == "" || r.chance(1, 10) {
 		return u
 	}
@@ -116,7 +121,7 @@ func m1GenC05Engine(r *rng, n int, w *bufio.Writer) {
 			})
 			var pats []string
 			for _, g := range sc.nets {
-				if p := wpat(g, q.URL, q.Hostname); p != "" {
+				if p := wpat(g, q.URL, q.Hostname); p != "" && !nSeenPat(&pats, p) {
 					pats = append(pats, p)
 				}
 			}
